@@ -222,7 +222,9 @@ def run(prop, tier, seed, spec, known, scratch, only, replay, t0):
         outp = cfgp.replace("cfg_", "out_")
         extra_pk = spec.get("extra_packages", [])
         json.dump({"repo": REPO, "packages": [pk] + [e for e in extra_pk if e != pk], "harness_dir": HDIR, "workers": int(os.environ.get("VERIF_WORKERS", "16")),
-                   "harnesses": cfgs, "out": outp, "samples": 4 * len(cfgs),
+                   "harnesses": cfgs, "out": outp, "samples": 4 * len(cfgs), "solver": spec.get("solver", "z3-new"),
+                   "time_limit_s": int(spec.get("engine_time_limit_s", {}).get(tier, 2400 if tier == "thorough" else 600)),
+                   "path_limit_s": int(spec.get("path_limit_s", 120)),
                    "solver_timeout_ms": int(spec.get("solver_timeout_ms", 60000 if tier == "thorough" else 30000))}, open(cfgp, "w"))
         limit = int(spec.get("time_limit_s", {}).get(tier, 3000 if tier == "thorough" else 900)) if isinstance(spec.get("time_limit_s"), dict) else (3600 if tier == "thorough" else 900)
         try:
@@ -270,6 +272,10 @@ def run(prop, tier, seed, spec, known, scratch, only, replay, t0):
             else:
                 mismatches.append("%s: witness path did not replay natively: %s" % (hr["name"], out[-600:]))
         for n, v in enumerate(hr.get("violations") or []):
+            if v["kind"] == "out-of-model":
+                if os.environ.get("VERIF_SHOW"):
+                    print("OUT-OF-MODEL %s %s inputs=%s" % (hr["name"], v.get("msg"), {x["name"]: x["val"] for x in v["inputs"]}))
+                continue
             tag = hashlib.sha1(json.dumps([v["label"], v["inputs"]], sort_keys=True).encode()).hexdigest()[:8]
             mp = os.path.join(rdir, "%s-%s.json" % (hr["name"], tag))
             json.dump({"property": prop, "package": pk, "harness": hr["name"], "inputs": v["inputs"], "bounds": hr.get("bounds") or {},
@@ -278,6 +284,8 @@ def run(prop, tier, seed, spec, known, scratch, only, replay, t0):
             out = native.run(pk, hr["name"], mp)
             traces_validated += 1
             ok = reproduced(out, v)
+            if os.environ.get("VERIF_SHOW"):
+                print("REPLAY %s %s -> reproduced=%s\n%s" % (hr["name"], v["label"], ok, (out or "")[-2500:]))
             what = "%s/%s" % (hr["name"], v["label"]) + (": " + v["msg"] if v.get("msg") else "")
             if v.get("known"):
                 kf = [k for k in known if k["property"] == prop and k.get("class") == v["known"]]
